@@ -132,6 +132,7 @@ def tlc_given(tmp: Path, progs, types, cases, mode, *, tag="given", shards=8, ti
     """Pattern V: MC_Proto in mode 'given' / 'givenbytes' on harness-recorded cases ([p (1-based), obj, san0] / [p, data, ch0]).
     Returns the emitted records ordered like `cases`."""
     (tmp / f"{tag}.cfg").write_text(cfg_text(mode, emit=True, withsize=withsize, invariants=("PInBounds",) if mode == "givenbytes" else ("SerLeavesModeAsFound",)))
+    # (mode "givenrt": serialize the given object, deserialize the bytes; one record per case: the DeRec with rt_ok, or the SerRec if it was refused)
     cf = tmp / f"{tag}_corpus.json"
     write_corpus(cf, progs, corpus_types(progs, types))
     shards = max(1, min(shards, len(cases)))
